@@ -28,12 +28,14 @@ fn fault_free(s: &Scn) -> Scn {
     }
     t
 }
-fn twin_of(s: &Scn) -> Arc<Twin> {
+fn twin_of(s: &Scn, cache: bool) -> Arc<Twin> {
     let t = fault_free(s);
     let key = hash_str(&serde_json::to_string(&t).unwrap());
     let map = TWINS.get_or_init(|| Mutex::new(HashMap::new()));
-    if let Some(x) = map.lock().unwrap().get(&key) {
-        return x.clone();
+    if cache {
+        if let Some(x) = map.lock().unwrap().get(&key) {
+            return x.clone();
+        }
     }
     let w = run_scn(&t, Oracles::default());
     let tw = Arc::new(Twin {
@@ -41,7 +43,10 @@ fn twin_of(s: &Scn) -> Arc<Twin> {
         running_at: w.nodes.iter().map(|n| n.running_at).collect(),
         disconnected: left_space_by_disconnect(&w) || !w.viols.is_empty(),
     });
-    map.lock().unwrap().insert(key, tw.clone());
+    // only the enumerated family shares twins (one per configuration); random scenarios are unique
+    if cache {
+        map.lock().unwrap().insert(key, tw.clone());
+    }
     tw
 }
 fn frames_in(ft: &[(u64, i32)], a: u64, b: u64) -> i32 {
@@ -197,7 +202,7 @@ pub fn cases(ctx: &Ctx) -> Vec<WCase> {
 }
 
 pub fn run_case(c: &WCase) -> Outcome {
-    let tw = twin_of(&c.scn);
+    let tw = twin_of(&c.scn, c.id.starts_with("enum"));
     let o = Oracles { c01: true, c06: true, ..Default::default() };
     let mut out = run_world_case(c, o, "C05", &[], &|w, out| {
         // (c) the input stream stays intact: C01 / C06 oracles are part of C05's verdict here
